@@ -653,6 +653,12 @@ func plainKnobs(r *rng) genKnobs {
 func plainRunOne(b *BatchResult, prop string, seed, run uint64, nRandom int) {
 	r := newRNG(seed, hashStr("plainsim"), hashStr(prop), run)
 	m := genModel(r, plainKnobs(r))
+	if r.chance(8) {
+		if fm := fixtureModel(r, false); fm != nil {
+			m = fm
+			b.Mix["fixture_seeded_models"]++
+		}
+	}
 	if r.chance(25) {
 		addComputedCycle(r, m)
 	}
